@@ -183,7 +183,7 @@ func (k msgServer) AddTenantAdmin(goCtx context.Context, msg *types.MsgAddTenant
 	}
 
 	for _, admin := range tenant.Admins {
-		if admin == msg.NewAdmin {
+		if SameAccount(admin, msg.NewAdmin) {
 			return nil, errorsmod.Wrapf(types.ErrInvalidAdmin, "admin %s already exists", msg.NewAdmin)
 		}
 	}
@@ -211,7 +211,7 @@ func (k msgServer) RemoveTenantAdmin(goCtx context.Context, msg *types.MsgRemove
 	}
 
 	for i, admin := range tenant.Admins {
-		if admin == msg.AdminToRemove {
+		if SameAccount(admin, msg.AdminToRemove) {
 			if len(tenant.Admins) == 1 {
 				return nil, errorsmod.Wrapf(types.ErrCannotRemoveAdmin, "cannot remove the last admin")
 			}
